@@ -197,3 +197,82 @@ def analyze(ctx, rules):
                    ("%d call(s) of Iterator::%s in %s: %s" % (len(locs), kind, M.short_name(oname), base[0])) if base else
                    "%s uses Iterator::%s (%s): an adaptor that drops, truncates or reorders elements, in a function whose loops must visit every element in order, and no rule analyses this use" % (M.short_name(oname), kind, ", ".join(locs)), locs[0])
         ctx.sample({"rule": rule, "adaptor_sites_in_area": n})
+    analyze_exits(ctx, rules)
+
+
+# Third closed set: the places where a loop can be left.  `continue` written as `break`, an early `return` inside a walk that must
+# visit every element: no adaptor, no hand-advanced iterator — one more edge out of the loop.  Per known function (closures and
+# unknown helpers accounted at their owners, as everywhere) the number of edges that leave a loop without unwinding is compared
+# with the reference tree (rules/loop_exits.json, tools/gen_loop_exits): more exits than the reference had are reported.
+def loop_exits(F):
+    """{owner function name: number of loop-leaving edges}"""
+    from .common import owners, is_derived
+    out = {}
+    for fn in F.fns.values():
+        if is_derived(fn):
+            continue
+        loops = fn.natural_loops()
+        if not loops:
+            continue
+        n = 0
+        seen = set()
+        for h, body in loops.items():
+            for u in body:
+                t = fn.term(u)
+                if t.get("exp_outer") in ("debug_assert!", "trace!", "debug!", "info!", "warn!", "error!", "assert!", "debug_assert_eq!"):
+                    continue
+                for v in fn.succ(u):
+                    if v not in body and (u, v, h) not in seen:
+                        seen.add((u, v, h))
+                        # an edge into a block that can only panic is not a way to skip elements
+                        if fn.is_unreachable_block(v) or not _reaches_return(fn, v):
+                            continue
+                        n += 1
+        if not n:
+            continue
+        for o, _ in (owners(F, fn) or [(fn, None)]):
+            out[o.name] = out.get(o.name, 0) + n
+    return out
+
+
+def _reaches_return(fn, b):
+    memo = fn.__dict__.setdefault("_rr", {})
+    if b in memo:
+        return memo[b]
+    seen, st = set(), [b]
+    ok = False
+    while st:
+        x = st.pop()
+        if x in seen:
+            continue
+        seen.add(x)
+        if fn.term(x)["k"] == "return":
+            ok = True
+            break
+        st.extend(fn.succ(x))
+    memo[b] = ok
+    return ok
+
+
+def analyze_exits(ctx, rules):
+    import json, os
+    F = ctx.facts
+    try:
+        ref = json.load(open(os.path.join(os.path.dirname(__file__), "loop_exits.json")))
+    except (OSError, ValueError):
+        for rule in rules:
+            ctx.missing(rule, "rules/loop_exits.json (tools/gen_loop_exits)")
+        return
+    cur = loop_exits(F)
+    for rule in rules:
+        area = AREAS[rule]
+        n = 0
+        for oname, k in sorted(cur.items()):
+            if not re.search(area, oname) or re.search(IRRELEVANT, oname):
+                continue
+            n += 1
+            r = ref.get(oname, ref.get(re.sub(r"<'\w+>", "<'_>", oname), 0))
+            ctx.ob(rule, "loop-exits:%s" % M.short_name(oname), k <= r,
+                   "the loops of %s can be left at %d place(s), the reference tree has %d%s" % (M.short_name(oname), k, r, "" if k <= r else
+                   ": an added `break` / early `return` inside a loop ends a walk before every element was visited, and no rule analyses this exit"), "")
+        ctx.sample({"rule": rule, "functions_with_loops_in_area": n})
